@@ -138,6 +138,10 @@ func (a alt) coq() string {
 		return "AltDigestB " + cq.Bytes(a.d)
 	case "dropdb":
 		return "AltDropDb " + cq.N(a.k) + " " + cq.Bytes(a.d)
+	case "shift":
+		return "AltShift " + cq.N(a.k)
+	case "pad":
+		return "AltPad " + cq.N(a.k)
 	}
 	return "AltNone"
 }
@@ -158,6 +162,18 @@ func applyAltPath(a alt, p history.AuditPath) history.AuditPath {
 	case "drop", "dropdb":
 		if int(a.k) < len(es) {
 			es = append(es[:a.k:a.k], es[a.k+1:]...)
+		}
+	case "shift":
+		// the last byte of entry k becomes the first byte of entry k+1: when the two are hashed side by side
+		// (sibling leaves both taken from the path) the hashed bytes do not change
+		if int(a.k)+1 < len(es) && len(es[a.k].val) > 0 {
+			x, y := es[a.k].val, es[a.k+1].val
+			es[a.k].val = append([]byte{}, x[:len(x)-1]...)
+			es[a.k+1].val = append([]byte{x[len(x)-1]}, y...)
+		}
+	case "pad":
+		if int(a.k) < len(es) {
+			es[a.k].val = append(append([]byte{}, es[a.k].val...), 0)
 		}
 	}
 	return pathFromEntries(es)
@@ -282,6 +298,10 @@ func histCmd(out *cq.Out, seed uint64, tier string) {
 					}
 					if np > 0 {
 						alts = append(alts, alt{kind: "drop", k: uint64(rng.Intn(np))})
+						alts = append(alts, alt{kind: "pad", k: uint64(rng.Intn(np))})
+					}
+					for k := 0; k+1 < np; k++ {
+						alts = append(alts, alt{kind: "shift", k: uint64(k)})
 					}
 					for _, d := range []int64{-1, 1} {
 						if x := int64(i) + d; x >= 0 {
